@@ -113,12 +113,14 @@ class IeeeJob:
         self.replace_contracts = replace_contracts or {}
         self.backend, self.timeout = backend, timeout
         self.predicate = predicate
+        if includes is None and f.loc and f.loc[0] and f.loc[0].startswith(astload.INC):
+            includes = [os.path.relpath(f.loc[0], astload.INC)]
         self.includes = includes
         self.extra_roots = list(extra_roots)
         self.flags = list(flags)
         self.text_extra = text_extra
         self.replay_extra = list(replay_extra)
-        self.search_tries = 12
+        self.search_tries = 6
         self.gen = default_gen
         loc = '%s:%s' % (os.path.relpath(f.loc[0], astload.REPO), f.loc[1]) if f.loc and f.loc[0] else None
         self.ob = Ob(name, 'IEEE', f.qualname, loc)
@@ -426,11 +428,21 @@ def run_jobs(check, jobs, on_harness_fail=None):
     """Run IeeeJob / HarnessJob instances in parallel, add their obligations, adjudicate failures."""
     from .core import pmap
     obs = pmap(lambda j: j.run(), jobs)
+    failed = [(j, ob) for j, ob in zip(jobs, obs) if ob.status == 'failed' and isinstance(j, IeeeJob)]
+    budget = 16
+    adj = {}
+    for (j, ob), res in zip(failed[:budget], pmap(lambda jo: jo[0].adjudicate(), failed[:budget], workers=8)):
+        adj[id(j)] = res
+    for j, ob in failed[budget:]:
+        rec = {'property': check.pid, 'obligation': ob.name, 'function': ob.function, 'source': ob.loc,
+               'verifier_output': ob.detail, 'contract': ob.text, 'confirmed': False,
+               'note': 'native replay budget of this run exhausted (%d failed obligations); see the replayed ones' % len(failed)}
+        adj[id(j)] = (write_replay(check, ob, rec), 'no-failing-input-found', False)
     for j, ob in zip(jobs, obs):
         check.add(ob)
         if ob.status == 'failed':
             if isinstance(j, IeeeJob):
-                path, tail, harmless = j.adjudicate()
+                path, tail, harmless = adj[id(j)]
                 check.violations.append((ob, path, tail))
             elif on_harness_fail is not None:
                 check.violations.append((ob,) + tuple(on_harness_fail(check, j, ob)))
